@@ -50,6 +50,7 @@ struct GenOpts {
 	bool wide = false;        // some 60..70 bit values
 	bool conds = true;
 	bool undefinedConsts = false;
+	unsigned patternBias = 8;  // percent of steps that are optimisation-pattern seeds
 	bool fullyDefined = false; // every register has a reset value, no division, no undefined constants
 };
 
@@ -109,6 +110,65 @@ class RecipeGen {
 		}
 	}
 
+	int notOf(int b) { Step s{.kind = "not", .width = 0, .a = b}; return add(s); }
+	int andOf(int a, int b) { Step s{.kind = "band", .width = 0, .a = a, .b = b}; return add(s); }
+	int nameOf(int a) { Step s{.kind = "name", .width = w(a), .a = a, .str = "sig_" + std::to_string(r.steps.size())}; return add(s); }
+	int valueOf(size_t width) { return width ? vecOfWidth(width) : pickBit(); }
+
+	// Pattern seed: a family of related conditions over shared atoms (equal / negated / subset / De-Morgan twins, some routed through
+	// named signals) used by sequential IFs on one target: exercises mergeMuxes, cullMuxConditionNegations and the condition analysis.
+	void patternCondFamily() {
+		std::vector<int> atoms; size_t na = 2 + rng.below(2);
+		for (size_t i = 0; i < na; i++) atoms.push_back(pickBit());
+		int e = pickBit();
+		auto lit = [&](size_t i, bool neg) { return neg ? notOf(atoms[i]) : atoms[i]; };
+		std::vector<int> fam;
+		// t1 = conjunction of (possibly negated) atoms
+		std::vector<bool> pol; for (size_t i = 0; i < na; i++) pol.push_back(rng.chance(1, 4));
+		int t1 = lit(0, pol[0]); for (size_t i = 1; i < na; i++) t1 = andOf(t1, lit(i, pol[i]));
+		int n1 = rng.chance(2, 3) ? nameOf(t1) : t1;
+		int nt1 = notOf(n1);
+		fam.push_back(n1); fam.push_back(nt1);
+		fam.push_back(andOf(e, nt1));                                   // e & !(a&b)
+		{ int dm = lit(0, !pol[0]); for (size_t i = 1; i < na; i++) dm = andOf(dm, lit(i, !pol[i])); fam.push_back(andOf(e, dm)); } // e & !a & !b
+		{ int t1b = lit(na - 1, pol[na - 1]); for (size_t i = na - 1; i-- > 0;) t1b = andOf(t1b, lit(i, pol[i])); fam.push_back(rng.chance(1, 2) ? nameOf(t1b) : t1b); } // structural duplicate
+		fam.push_back(notOf(fam[2]));
+		fam.push_back(andOf(e, n1));
+		bool isBit = rng.chance(1, 3); size_t cw = isBit ? 0 : w(pickVec());
+		Step s{.kind = "cond", .width = cw, .a = valueOf(cw)};
+		size_t nst = 2 + rng.below(3);
+		for (size_t i = 0; i < nst; i++) {
+			s.list.push_back(-1); s.list.push_back(fam[rng.below(fam.size())]);
+			s.list.push_back(-4); s.list.push_back(valueOf(cw));
+			if (rng.chance(1, 3)) { s.list.push_back(-2); s.list.push_back(-4); s.list.push_back(valueOf(cw)); }
+			s.list.push_back(-3);
+		}
+		add(s);
+	}
+
+	// Pattern seed: chain of comparisons of one selector with constants (removeIrrelevantComparisons / mergeBinaryMuxChain / removeIrrelevantMuxes)
+	void patternCompareChain() {
+		size_t sw = 1 + rng.below(3); int sel = vecOfWidth(sw);
+		bool isBit = rng.chance(1, 4); size_t cw = isBit ? 0 : w(pickVec());
+		Step s{.kind = "cond", .width = cw, .a = valueOf(cw)};
+		size_t n = 2 + rng.below(std::min<size_t>(5, (size_t(1) << sw)));
+		bool elseChain = rng.chance(1, 2);
+		std::vector<int> conds;
+		for (size_t i = 0; i < n; i++) {
+			std::string bits; size_t v = rng.chance(3, 4) ? i % (size_t(1) << sw) : rng.below(size_t(1) << sw);
+			for (size_t b = sw; b-- > 0;) bits.push_back(((v >> b) & 1) ? '1' : '0');
+			Step c{.kind = "const", .width = sw, .str = bits}; int ci = add(c);
+			Step q{.kind = rng.chance(7, 8) ? "eq" : "ne", .width = 0, .a = sel, .b = ci}; conds.push_back(add(q));
+		}
+		size_t open = 0;
+		for (size_t i = 0; i < n; i++) {
+			s.list.push_back(-1); s.list.push_back(conds[i]); s.list.push_back(-4); s.list.push_back(valueOf(cw));
+			if (elseChain && i + 1 < n) { s.list.push_back(-2); open++; } else s.list.push_back(-3);
+		}
+		for (size_t i = 0; i < open; i++) s.list.push_back(-3);
+		add(s);
+	}
+
 public:
 	RecipeGen(Rng &rng, GenOpts o) : rng(rng), o(o) {}
 
@@ -121,6 +181,7 @@ public:
 		}
 		if (vecs.empty()) add(Step{.kind = "in", .width = genWidth()});
 		for (size_t n = 0; n < o.nSteps; n++) {
+			if (o.conds && rng.chance(o.patternBias, 100)) { if (rng.chance(2, 3)) patternCondFamily(); else patternCompareChain(); continue; }
 			unsigned c = (unsigned) rng.below(100);
 			if (c < 14) { // arithmetic / bitwise on equal widths
 				int a = pickVec(); int b = vecOfWidth(w(a));
@@ -147,7 +208,8 @@ public:
 			} else if (c < 63) { int a = pickVec(), b = pickVec(); if (w(a) + w(b) <= 80) { Step s{.kind = "cat", .width = w(a) + w(b), .a = a, .b = b}; add(s); }
 			} else if (c < 66) { int a = pickVec(); Step s{.kind = rng.chance(1, 2) ? "zext" : (rng.chance(1, 2) ? "sext" : "oext"), .width = w(a) + 1 + rng.below(3), .a = a}; add(s);
 			} else if (c < 71) { int a = pickVec(); static const char *ops[] = {"shl", "shr", "rotl", "rotr"}; Step s{.kind = ops[rng.below(4)], .width = w(a), .a = a}; s.k = rng.below(w(a) + 1); if (s.kind[0] == 'r' && s.k >= w(a)) s.k = w(a) - 1; if (s.k > w(a)) s.k = w(a); add(s);
-			} else if (c < 74) { size_t cw = genWidth(); Step s{.kind = "const", .width = cw, .str = constStr(cw)}; add(s);
+			} else if (c < 73) { size_t cw = genWidth(); Step s{.kind = "const", .width = cw, .str = constStr(cw)}; add(s);
+			} else if (c < 74) { Step s{.kind = "bconst", .width = 0, .str = rng.chance(1, 2) ? "1" : "0"}; add(s);
 			} else if (c < 84 && o.conds) { // conditional assignment tree
 				bool isBit = rng.chance(1, 3); size_t cw = isBit ? 0 : w(pickVec());
 				Step s{.kind = "cond", .width = cw, .a = cw ? vecOfWidth(cw) : pickBit()};
@@ -235,6 +297,7 @@ inline Built build(const Recipe &r, const Decoration &deco = {}) {
 			res.inWidths.push_back(s.width);
 		}
 		else if (k == "const") { vals[i] = constU(s.str); }
+		else if (k == "bconst") { vals[i] = Bit(s.str == "1" ? '1' : '0'); }
 		else if (k == "add") vals[i] = UInt(vec(s.a) + vec(s.b));
 		else if (k == "sub") vals[i] = UInt(vec(s.a) - vec(s.b));
 		else if (k == "mul") vals[i] = UInt(vec(s.a) * vec(s.b));
@@ -305,7 +368,7 @@ inline Built build(const Recipe &r, const Decoration &deco = {}) {
 			if (std::holds_alternative<Bit>(vals[i])) decorate(std::get<Bit>(vals[i])); else decorate(std::get<UInt>(vals[i]));
 		}
 	}
-	areaStack.clear();
+	while (!areaStack.empty()) areaStack.pop_back(); // leave the area scopes innermost first
 	for (size_t j = 0; j < r.outputs.size(); j++) {
 		int x = r.outputs[j];
 		if (r.steps[x].width == 0) { auto p = pinOut(std::get<Bit>(vals[x])).setName("out" + std::to_string(j)); res.outPins.push_back(p.node()); }
